@@ -113,6 +113,12 @@ func rootAt(b []byte, end int64) (start int64, js []byte, ok bool) {
 	return off, js, true
 }
 
+// RootEndsAt reports whether a complete, self-consistent root record ends exactly at end.
+func RootEndsAt(b []byte, end int64) bool {
+	_, _, ok := rootAt(b, end)
+	return ok
+}
+
 // IsRootRecord reports whether p, written at offset off, is exactly one
 // complete root record (used by the file monitor to recognise commits).
 func IsRootRecord(p []byte, off int64) bool {
